@@ -23,6 +23,28 @@ CLAIMED = {
             "DESIGN.md C13"),
 }
 
+CLAIMED["C08"] = (
+    "Rocq/Coq theorems that acceptance is a function of the set of part names (order and repetition irrelevant) for "
+    "every schema graph, with a refutation witness for 'supported iff legal'; exhaustive correspondence: every subset "
+    "of every generated hierarchy through ComplexCollect::supports() vs the extracted model and an independent "
+    "evaluation of the property's clauses; sampled subsets through the reader in three part orders",
+    "coq/Complex.v models exp2cxx's construction of the AND/OR/ANDOR tree of a supertype (expressbuild.cc: supertype "
+    "expression, implicit subtypes ANDOR-ed, a subtype that is itself a supertype nested, OR-ed with itself when not "
+    "abstract), the family of name sets a tree generates (what the runtime matcher computes), ComplexCollect::"
+    "supports() incl. the combination of root lists for members with several supertypes and hitMultNodes(), and the "
+    "declarative rule of the property (closure under supertypes, each member's expression over the subtypes present "
+    "by ISO 10303-11 annex B evaluated sets, ABSTRACT). Properties_C08.v proves (axiom-free) for every graph: "
+    "supports and the rule depend only on the set of names (any permutation, any repetition); and refutes 'supported "
+    "iff legal' with a witness (an entity with two supertypes inside one hierarchy) that replays on the code: open "
+    "finding. The matcher's backtracking mechanics are not modelled line by line; instead the check compares "
+    "supports() with the model on ALL subsets (size >= 2) of every generated hierarchy (trees, diamonds, two roots "
+    "sharing a subtype; random ONEOF/AND/ANDOR nestings; implicit subtypes; ABSTRACT), each query in its own child "
+    "process so that a crash is an observation, and reads sampled subsets as #n=(A()B()..) in three part orders "
+    "between two ordinary instances (same outcome in every order; neighbours kept).",
+    "Partial: no theorem equates supports with the rule (it is false); the agreement of model and runtime is "
+    "exhaustive testing on generated graphs of up to 6 entities per hierarchy. compstructs.cc serialisation is "
+    "exercised, not modelled.",
+    "DESIGN.md C08")
 CLAIMED["C09"] = (
     "Rocq/Coq theorems over a model of the numeric readers/writer and std::istream; exhaustive short-string "
     "correspondence with ReadInteger/ReadReal/ReadNumber/WriteReal; ISO 10303-21 grammar oracle",
